@@ -6,6 +6,7 @@ import (
 	"fmt"
 	"net"
 	"net/http"
+	"strconv"
 
 	logging "github.com/0xReLogic/Helios/internal/logging"
 )
@@ -28,6 +29,8 @@ type limitedResponseWriter struct {
 	hijacked     bool
 	statusCode   int
 	ctx          context.Context
+	// headRequest: the response to a HEAD request carries no body, whatever length it declares
+	headRequest bool
 	// headerAtWriteHeader is the header as it stood when the handler called WriteHeader:
 	// net/http sends that, whatever the handler does to the map afterwards
 	headerAtWriteHeader http.Header
@@ -44,6 +47,10 @@ func (lrw *limitedResponseWriter) Write(b []byte) (int, error) {
 	}
 
 	lrw.ensureHeaderWritten()
+	if lrw.limitReached {
+		// the declared length gave the excess away
+		return 0, fmt.Errorf("response body exceeds limit of %d bytes", lrw.limit)
+	}
 
 	n, err := lrw.ResponseWriter.Write(b)
 	lrw.written += int64(n)
@@ -66,6 +73,13 @@ func (lrw *limitedResponseWriter) checkLimit(b []byte) error {
 		Str("type", "response").
 		Msg("response body size limit exceeded")
 
+	lrw.rejectIfNothingSent()
+
+	return fmt.Errorf("response body exceeds limit of %d bytes", lrw.limit)
+}
+
+// rejectIfNothingSent answers 413 in place of the response, provided its header is not out yet
+func (lrw *limitedResponseWriter) rejectIfNothingSent() {
 	// If headers haven't been written yet, set the 413 status
 	if !lrw.wroteHeader {
 		lrw.statusCode = http.StatusRequestEntityTooLarge
@@ -80,8 +94,17 @@ func (lrw *limitedResponseWriter) checkLimit(b []byte) error {
 			f.Flush()
 		}
 	}
+}
 
-	return fmt.Errorf("response body exceeds limit of %d bytes", lrw.limit)
+// declaredTooLarge reports whether the response announces a body longer than the limit.
+// Answers to HEAD, 204 and 304 carry no body: the length they declare is that of the entity
+// they stand for.
+func (lrw *limitedResponseWriter) declaredTooLarge() bool {
+	if lrw.headRequest || lrw.statusCode == http.StatusNoContent || lrw.statusCode == http.StatusNotModified {
+		return false
+	}
+	declared, err := strconv.ParseInt(lrw.ResponseWriter.Header().Get("Content-Length"), 10, 64)
+	return err == nil && declared > lrw.limit
 }
 
 // ensureHeaderWritten writes the response header if it hasn't been written yet
@@ -104,6 +127,20 @@ func (lrw *limitedResponseWriter) ensureHeaderWritten() {
 			h[k] = v
 		}
 		lrw.headerAtWriteHeader = nil
+	}
+
+	// A declared length over the limit is an excess known before anything is sent: answer
+	// 413 now, whether the header goes out with the first write or with an earlier flush
+	// (the reverse proxy flushes the header of a response that is slow to produce its body)
+	if lrw.declaredTooLarge() {
+		lrw.limitReached = true
+		logging.WithContext(lrw.ctx).Warn().
+			Int64("limit", lrw.limit).
+			Str("declared", lrw.ResponseWriter.Header().Get("Content-Length")).
+			Str("type", "response").
+			Msg("response body size limit exceeded")
+		lrw.rejectIfNothingSent()
+		return
 	}
 
 	lrw.ResponseWriter.WriteHeader(lrw.statusCode)
@@ -215,6 +252,7 @@ func newSizeLimitMiddleware(name string, cfg map[string]interface{}) (Middleware
 				wroteHeader:    false,
 				statusCode:     0,
 				ctx:            r.Context(),
+				headRequest:    r.Method == http.MethodHead,
 			}
 
 			// Call next handler with the limited response writer
